@@ -36,7 +36,7 @@ def run(tier):
         print(("ok   " if ok else "FAIL ") + name + (" -- " + detail if detail else ""))
 
     # --- PTTrace on a real multi-process run
-    args = dict(temps=[1, 2, 4], starts=[[-3, 4], [4, -3], [0, 1]], kind="gibbs", display=True, seed=seed() + 51, force="accept",
+    args = dict(temps=[1, 2, 4], starts=[[-3, 4], [4, -3], [0, 1]], kind="gibbs", display=True, seed=seed() + 51, force="accept", stats=True,
                 prog=[["steps", 2], ["swap"], ["steps", 2], ["swap"], ["return"], ["shutdown"]], delays=[0.0, 0.0, 0.0])
     sc = c08.run_scenario(args)
 
@@ -64,6 +64,18 @@ def run(tier):
     ev[pos[0]]["tp4"] += 4
     ok4, *_ = c08.validate_trace(_Ck(), args, dict(sc, events=ev), "selftest")
     record("PTTrace rejects a reported log-probability that does not belong to the reported point", not ok4)
+    ev = copy.deepcopy(sc["events"])
+    sts = [i for i, e in enumerate(ev) if e["p"] == "M" and e.get("ev") == "swapstats"]
+    hit = next(k for k, t in enumerate(ev[sts[-1]]["suc"]) if t[2] > 0)
+    t = ev[sts[-1]]["suc"][hit]
+    other = next(k for k, u in enumerate(ev[sts[-1]]["suc"]) if u[0] == t[1] and u[1] == t[0])
+    ev[sts[-1]]["suc"][other][2], ev[sts[-1]]["suc"][hit][2] = t[2], 0
+    ok5, *_ = c08.validate_trace(_Ck(), args, dict(sc, events=ev), "selftest")
+    record("PTTrace rejects exchange statistics booked under the transposed pair", not ok5)
+    ev = copy.deepcopy(sc["events"])
+    ev[sts[0]]["att"][0][2] += 1
+    ok6, *_ = c08.validate_trace(_Ck(), args, dict(sc, events=ev), "selftest")
+    record("PTTrace rejects an attempted-exchange count that is one too high", not ok6)
 
     # --- RunFor
     good = [{"ev": "Begin", "budget": 1000}, {"ev": "Clock", "t": 0}, {"ev": "Steps", "n": 20}, {"ev": "Clock", "t": 600},
